@@ -146,7 +146,10 @@ def gen_grid(rng, kind):
         return grids.CartesianGrid, dict(unitSteps=((w, 0.0, 0.0), (0.0, h, 0.0), (0, 0, 0)),
                                         unitStepLimits=((-n, n), (-n, n), (0, 1)), offset=off, symmetry=sym, geomType="cartesian")
     if kind == "axial":
-        return grids.AxialGrid, dict(bounds=(None, None, inc_dyadic(rng, rng.randint(1, 7))))
+        n = rng.choice([1, 1, 2, 3, rng.randint(1, 7)])
+        if rng.random() < 0.3:
+            return grids.AxialGrid, dict(bounds=(None, None, np.arange(n + 1, dtype=np.float64)))   # = fromNCells(n)
+        return grids.AxialGrid, dict(bounds=(None, None, inc_dyadic(rng, n)))
     if kind == "axialNp":
         off = rng.choice([None, (0.0, 0.0, common.dyadic(rng, -4, 4, 2))])
         return grids.AxialGrid, dict(bounds=(None, None, np.array(inc_dyadic(rng, rng.randint(1, 7)))), offset=off)
@@ -229,6 +232,9 @@ def run_generated(ctx):
             ctx.case(("grid", kind, t, ix))
         # metadata
         exact_req.append(f"axialonly {A}"); exact_impl.append("T" if g.isAxialOnly else "F"); exact_cases.append({**case0, "op": "axialonly"})
+        if kind != "mixed" and bool(g.isAxialOnly) != expected_axial_only(g):
+            ctx.fail("grid-is-axial-only", "isAxialOnly <=> one (i,j) column and at least one axial cell "
+                     "(an axial grid with ONE cell is axial-only)", case0, observed=bool(g.isAxialOnly), expected=expected_axial_only(g))
         ib = g.getIndexBounds()
         exact_req.append(f"indexbounds {A}"); exact_impl.append("[" + ",".join(f"[{int(a)},{int(b)}]" for a, b in ib) + "]")
         exact_cases.append({**case0, "op": "indexbounds"})
@@ -393,10 +399,16 @@ def make_composites(rng, flavour):
                                                isOffset=rng.random() < 0.5, armiObject=top)
     top.spatialGrid = sg
     asm = Composite("assembly")
-    asm.spatialLocator = sg[rng.randint(-3, 3), rng.randint(-3, 3), 0]
+    ai, aj = rng.randint(-3, 3), rng.randint(-3, 3)
+    if (ai, aj) == (0, 0) and rng.random() < 0.8:
+        ai = rng.choice([-2, 1, 3])                          # mostly away from the central cell
+    asm.spatialLocator = sg[ai, aj, 0]
     top.add(asm)
-    nb = rng.randint(2, 6)
-    ag = grids.AxialGrid(bounds=(None, None, np.array(inc_dyadic(rng, nb, lo=common.dyadic(rng, 0, 4, 2)))), armiObject=asm)
+    nb = rng.choice([1, 1, 2, 3, rng.randint(2, 6)])       # one-block assemblies included
+    if rng.random() < 0.3:
+        ag = grids.AxialGrid.fromNCells(nb, armiObject=asm)
+    else:
+        ag = grids.AxialGrid(bounds=(None, None, np.array(inc_dyadic(rng, nb, lo=common.dyadic(rng, 0, 4, 2)))), armiObject=asm)
     asm.spatialGrid = ag
     blk = Composite("block")
     blk.spatialLocator = ag[0, 0, rng.randint(0, nb - 1)]
@@ -420,6 +432,18 @@ def make_composites(rng, flavour):
         blk.add(pin)
         leaf = pin
     return root, leaf
+
+
+def expected_axial_only(g):
+    """What `isAxialOnly` means, read off the PUBLIC constructor arguments: exactly one (i, j) column (index
+    range(0, 1) in both step-defined directions) and at least one cell in k (>= 2 mesh edges when k is
+    bounds-defined; an index range longer than one when it is step-defined)."""
+    p = g.reduce()
+    lim, bnd = p.unitStepLimits, p.bounds
+
+    def upper(d):
+        return len(bnd[d]) if bnd[d] is not None else lim[d][1]
+    return upper(0) == 1 and upper(1) == 1 and upper(2) > 1
 
 
 def chain_of(loc):
@@ -484,12 +508,33 @@ def nesting_case(ctx, leafloc, label, req, impl_vals, cases, exact):
         exact.append((f"complete {enc_loc(leafloc)} {enc_loc(parent) if parent is not None else '_'}",
                       common.ratlist(ci), {**case, "op": "complete"}))
         own = [float(v) for v in leafloc.indices]
+        adds = False
         if isinstance(leafloc, grids.CoordinateLocation):
             want = [0.0, 0.0, 0.0]
-        elif parent is not None and parent.grid is not None and leafloc.grid.isAxialOnly and not parent.grid.isAxialOnly:
+        elif parent is not None and parent.grid is not None and expected_axial_only(leafloc.grid) \
+                and not expected_axial_only(parent.grid):
             want = [a + float(b) for a, b in zip(own, parent.indices)]
+            adds = True
         else:
             want = own
+        if not isinstance(leafloc, grids.CoordinateLocation) and leafloc.grid is not None:
+            for gg in {id(leafloc.grid): leafloc.grid, **({id(parent.grid): parent.grid} if parent is not None and parent.grid is not None else {})}.values():
+                if bool(gg.isAxialOnly) != expected_axial_only(gg):
+                    ctx.fail("grid-is-axial-only", "isAxialOnly <=> one (i,j) column and at least one axial cell "
+                             "(an axial grid with ONE cell is axial-only)", {**case, "grid": canon_args(gg.reduce())},
+                             observed=bool(gg.isAxialOnly), expected=expected_axial_only(gg))
+        if adds:
+            if not grids.addingIsValid(leafloc.grid, parent.grid):
+                ctx.fail("adding-is-valid-axial-in-radial", "addingIsValid(axial grid, radial grid) is True", case, observed=False)
+            try:
+                rp = tuple(int(v) for v in leafloc.getRingPos())
+                wantrp = tuple(int(v) for v in parent.grid.getRingPos(tuple(int(v) for v in parent.indices)))
+                if rp != wantrp:
+                    ctx.fail("nested-ringpos-is-parent-cell", "ring/pos of a block locator == ring/pos of its assembly's cell",
+                             case, observed=rp, expected=wantrp)
+            except (NotImplementedError, ValueError):
+                pass
+            ctx.count("axial-in-radial nestings with %d axial cell(s)" % min(4, len(leafloc.grid.getBounds()[2]) - 1))
         if ci != want:
             ctx.fail("complete-indices-axial-only", "complete indices add the parent's indices only for an axial grid "
                      "nested in a non-axial grid", case, observed=ci, expected=want)
@@ -654,34 +699,151 @@ def run_changepitch(ctx):
     ctx.count("changePitch steps", len(req))
 
 
+# ------------------------------------------------------------------------------------------ reduce in sequences
+import re
+
+_NUM = re.compile(r"-?\d+(?:/\d+)?")
+
+
+def close_line(model, impl, tol=1e-9):
+    """same skeleton, numbers equal up to tol (hex unit steps carry the rounding of 1.5 * pitch / sqrt 3)."""
+    if model == impl:
+        return True
+    if _NUM.sub("#", model) != _NUM.sub("#", impl):
+        return False
+    for a, b in zip(_NUM.findall(model), _NUM.findall(impl)):
+        x, y = float(common.unrat(a)), float(common.unrat(b))
+        if abs(x - y) > tol * max(1.0, abs(x), abs(y)):
+            return False
+    return True
+
+
+def vec_str(v):
+    return "reject" if v is None else common.ratlist(v)
+
+
+def grids_equal(ctx, key, case, g, g2, idxs, kind):
+    """observable equality of the CURRENT grid and the one rebuilt from its reduce() arguments."""
+    from armi.reactor.grids import StructuredGrid as _SG
+
+    meta = lambda x: (x._geomType, x._symmetry, x.getIndexBounds(), bool(x.isAxialOnly), len(x), type(x).__name__)
+    if meta(g) != meta(g2):
+        ctx.fail(key, "rebuilt grid has the metadata of the current grid", case, observed=meta(g2), expected=meta(g))
+        return False
+    if [float(v) for v in g.offset] != [float(v) for v in g2.offset]:
+        ctx.fail(key, "rebuilt grid has the offset of the current grid", case, observed=list(g2.offset), expected=list(g.offset))
+        return False
+    for f in ("pitch",):
+        try:
+            a, b = getattr(g, f), getattr(g2, f)
+            a, b = (a() if callable(a) else a), (b() if callable(b) else b)
+        except Exception:
+            continue
+        if np.any(np.array(a, dtype=float) != np.array(b, dtype=float)):
+            ctx.fail(key, "rebuilt grid has the pitch of the current grid", case, observed=b, expected=a)
+            return False
+    for ix in idxs:
+        for f in (_SG.getCoordinates, _SG.getCellBase, _SG.getCellTop):
+            a, b = impl_vec(f, g, ix), impl_vec(f, g2, ix)
+            if not same_vec(a, b):
+                ctx.fail(key, f"rebuilt grid gives the current grid's {f.__name__} for every cell",
+                         {**case, "index": list(ix)}, observed=b, expected=a)
+                return False
+    return True
+
+
+def run_reduce_sequences(ctx):
+    """reduce() -> mutate in place -> reduce() -> rebuild, in every order, for every grid kind and mutator."""
+    from armi.reactor import grids
+
+    rng = ctx.rng
+    s3 = common.rat(SQRT3)
+    kinds = ["hexF", "hexC", "cart", "cartO", "axial", "axialNp", "trz"]
+    req, impl_lines, cases = [], [], []
+    for t in range(ctx.pick(140, 900)):
+        kind = kinds[t % len(kinds)]
+        cls, kw = gen_grid(rng, kind)
+        g = cls(**kw)
+        us, bs, ls, off = ctor_args(kw)
+        A = enc_args(us, bs, ls, off, g._geomType, g._symmetry)
+        idxs = probe_indices(rng, g, kw)[:8]
+        probe = idxs[rng.randrange(len(idxs))]
+        reduce_first = rng.random() < 0.6
+        if reduce_first:
+            g.reduce()                       # e.g. a database write before the geometry changes
+        tokens, depth, steps_done = [], 0, []
+        for step in range(rng.randint(1, 5)):
+            choices = ["offset", "backup"] + (["restore"] * 2 if depth else [])
+            if kind in ("hexF", "hexC"):
+                choices += ["hexpitch"] * 3
+            if kind in ("cart", "cartO"):
+                choices += ["cartpitch"] * 3
+            m = rng.choice(choices)
+            if m == "hexpitch":
+                p = rng.choice([g.pitch * (1 + 10.0 ** rng.uniform(-6, -3)), common.dyadic(rng, 0.5, 20, 4), g.pitch * 2])
+                g.changePitch(p); tokens.append(f"H:{s3}:{common.rat(p)}")
+            elif m == "cartpitch":
+                xw, yw = common.dyadic(rng, 0.5, 20, 3), common.dyadic(rng, 0.5, 20, 3)
+                g.changePitch(xw, yw); tokens.append(f"C:{common.rat(xw)}:{common.rat(yw)}")
+            elif m == "offset":
+                o = [common.dyadic(rng, -3, 3, 2), common.dyadic(rng, -3, 3, 2), common.dyadic(rng, -3, 3, 2)]
+                if rng.random() < 0.25:
+                    o = [0.0, 0.0, 0.0]
+                g.offset = np.array(o); tokens.append(f"O:{common.ratlist(o)}")
+            elif m == "backup":
+                g.backUp(); depth += 1; tokens.append("B")
+            else:
+                g.restoreBackup(); depth -= 1; tokens.append("R")
+            steps_done.append(m)
+            case = {"kind": kind, "args": A, "reduce_before_mutation": reduce_first, "mutations": list(tokens)}
+            p1 = g.reduce()
+            p2 = g.reduce()
+            if canon_args(p1) != canon_args(p2):
+                ctx.fail("grid-reduce-after-mutation", "reduce() is a function of the current state (two calls agree)", case,
+                         observed=canon_args(p2), expected=canon_args(p1))
+            try:
+                g2 = cls(*p1)
+                same = grids_equal(ctx, "grid-reduce-after-mutation", case, g, g2, idxs, kind)
+            except Exception as e:  # noqa
+                ctx.fail("grid-reduce-after-mutation", "type(grid)(*grid.reduce()) rebuilds the current grid", case, observed=repr(e)[:200])
+                same = False
+            from armi.reactor.grids import StructuredGrid as _SG
+            line = " ; ".join([canon_args(p1), vec_str(impl_vec(_SG.getCoordinates, g, probe)), vec_str(impl_vec(_SG.getCellBase, g, probe)),
+                               vec_str(impl_vec(_SG.getCellTop, g, probe)), "same" if same else "differs"])
+            req.append(f"mutseq {A} {ints(probe)} " + " ".join(tokens)); impl_lines.append(line); cases.append({**case, "index": list(probe)})
+            ctx.count("reduce after " + m + (" (reduced before)" if reduce_first else " (first reduce)"))
+        ctx.case(("reduceseq", kind, t))
+    model = lean_run("Grid", req)
+    for c, m, i in zip(cases, model, impl_lines):
+        if not close_line(m, i):
+            ctx.disagree("Model/Grid.lean mutation sequence + reduce vs StructuredGrid", c, m, i)
+    ctx.evaluations += len(req)
+    if req:
+        ctx.samples.append({"request": req[-1][:400], "model": model[-1][:300], "impl": impl_lines[-1][:300]})
+
+
 # ------------------------------------------------------------------------------------------ entry points
 def run(ctx):
     run_cart_ringpos(ctx)
     run_generated(ctx)
     run_nesting(ctx)
     run_changepitch(ctx)
+    run_reduce_sequences(ctx)
 
 
 def search(ctx, disagreements, broken):
-    """re-evaluate the oracles of the part whose correspondence broke, on a fresh quick context."""
-    parts = set()
-    for d in disagreements:
-        w = d.what
-        if "cartRingPos" in w:
-            parts.add(run_cart_ringpos)
-        elif "nesting" in w or "completeIndices" in w:
-            parts.add(run_nesting)
-        elif "changePitch" in w:
-            parts.add(run_changepitch)
-        elif "Model/Grid.lean" in w:
-            parts.add(run_generated)
+    """a generic-grid correspondence broke: evaluate every oracle stream of this module on fresh quick contexts
+    (two seeds) and return the concrete failing inputs found on the real code."""
+    mine = [d for d in disagreements if "Model/Grid.lean" in d.what]
+    if not mine:
+        return []
     out, seen = [], set()
-    for part in parts:
-        for seed in (ctx.seed, ctx.seed + 101):
-            sub = type(ctx)(ctx.prop, "quick", seed)
+    for seed in (ctx.seed, ctx.seed + 101):
+        sub = type(ctx)(ctx.prop, "quick", seed)
+        for part in (run_generated, run_nesting, run_reduce_sequences, run_changepitch, run_cart_ringpos):
             part(sub)
-            for f in sub.failures:
-                if f.key not in seen:
-                    seen.add(f.key)
-                    out.append(f)
+        for f in sub.failures:
+            if f.key not in seen:
+                seen.add(f.key)
+                out.append(f)
     return out
